@@ -20,6 +20,16 @@ MODULES = [
 ]
 
 STANDINS = [
+    {"name": "front_canon_C01", "module": "standins.front_canon", "args": ["--prop", "C01"],
+     "props": ["C01"], "timeout": {"quick": 900, "thorough": 3600}},
+    {"name": "front_canon_C07", "module": "standins.front_canon", "args": ["--prop", "C07"],
+     "props": ["C07"], "timeout": {"quick": 900, "thorough": 3600}},
+    {"name": "front_canon_C08", "module": "standins.front_canon", "args": ["--prop", "C08"],
+     "props": ["C08"], "timeout": {"quick": 900, "thorough": 3600}},
+    {"name": "front_canon_C09", "module": "standins.front_canon", "args": ["--prop", "C09"],
+     "props": ["C09"], "timeout": {"quick": 900, "thorough": 3600}},
+    {"name": "front_canon_C10", "module": "standins.front_canon", "args": ["--prop", "C10"],
+     "props": ["C10"], "timeout": {"quick": 900, "thorough": 3600}},
     {"name": "selftest_calendar", "module": "standins.selftest", "args": ["--part", "calendar"],
      "props": ["C08", "C09"], "timeout": {"quick": 900, "thorough": 7200}},
     {"name": "selftest_regex", "module": "standins.selftest", "args": ["--part", "regex"],
